@@ -25,7 +25,8 @@ import (
 )
 
 var classes = []string{"inorder", "permuted", "dup", "foreign", "late", "never", "mixed", "close", "badframe", "garbage",
-	"refuse", "blackhole1", "blackholeK", "queuefull", "dupburst", "giveup", "crowd", "sequel", "notify"}
+	"refuse", "blackhole1", "blackholeK", "queuefull", "dupburst", "giveup", "crowd", "sequel", "notify",
+	"hol", "edge-read0", "edge-write0", "edge-dial1", "edge-qmax0", "edge-qmax1", "edge-subms"}
 
 func pickInt(r *rand.Rand, xs ...int) int { return xs[r.Intn(len(xs))] }
 
@@ -42,7 +43,7 @@ func plan(seed int64, classes []string, per int, maxK int) []*scenario {
 	for idx := 0; idx < n; idx++ {
 		r := rand.New(rand.NewSource(seed*1000003 + int64(idx)*7919 + 17))
 		sc := &scenario{Idx: idx, Cls: classes[idx%len(classes)], Listen: "peer", DialMs: 300, ReadMs: pickInt(r, 40, 60),
-			QMax: 100000, CfgTO: pickInt(r, 50, 100, 200, 300)}
+			QMax: 100000, CfgTO: pickInt(r, 50, 100, 200, 300), WriteMs: 3000}
 		sc.K = ks[r.Intn(len(ks))]
 		switch sc.Cls {
 		case "never", "late":
@@ -84,6 +85,48 @@ func plan(seed int64, classes []string, per int, maxK int) []*scenario {
 			sc.Sequel = sc.K / 2
 			sc.NotifyGate = true
 			sc.CfgTO = 300
+		case "hol": // head of the line: a read timeout longer than every deadline; the callers of group A (odd) are answered twice at
+			// once, those of group B (even) once, right behind: a copy whose caller has just left must hold up nobody else's reply
+			sc.ReadMs = pickInt(r, 600, 800)
+			if sc.K < 4 {
+				sc.K = 4
+			}
+			if sc.K > 16 {
+				sc.K = 16
+			}
+			sc.CfgTO = pickInt(r, 300, 350, 400)
+			sc.HoldUnreg = pickInt(r, 0, 15)
+		case "edge-read0", "edge-write0", "edge-dial1", "edge-subms":
+			// boundary configurations; in each the same goroutine makes a second call after its first one has returned:
+			// edge-read0   ClientReadTimeout = 0 ("no read deadline")      edge-write0  ClientWriteTimeout = 0
+			// edge-dial1   ClientDialTimeout = 1 ms                        edge-subms   deadlines below the 1 ms granularity
+			if sc.K < 2 {
+				sc.K = 2
+			}
+			if sc.K > 8 {
+				sc.K = 8
+			}
+			sc.K -= sc.K % 2
+			sc.Sequel = sc.K / 2
+			sc.DialMs = 100
+			sc.CfgTO = pickInt(r, 100, 200)
+			switch sc.Cls {
+			case "edge-read0":
+				sc.ReadMs = 0
+			case "edge-write0":
+				sc.WriteMs = 0
+			case "edge-dial1":
+				sc.DialMs = 1
+			}
+		case "edge-qmax0", "edge-qmax1": // ObjQueueMax 0 / 1: staggered callers, some overlapping
+			sc.K = pickInt(r, 3, 4, 6)
+			sc.QMax = 0
+			if sc.Cls == "edge-qmax1" {
+				sc.QMax = 1
+			}
+			sc.Stagger = pickInt(r, 10, 25)
+			sc.CfgTO = pickInt(r, 200, 300)
+			sc.DialMs = 100
 		case "refuse":
 			sc.Listen = "refuse"
 			sc.K = pickInt(r, 1, 4, 8)
@@ -112,7 +155,25 @@ func plan(seed int64, classes []string, per int, maxK int) []*scenario {
 		sc.Eff = make([]int, sc.K+1)
 		for c := 1; c <= sc.K; c++ {
 			switch m := r.Intn(5); {
-			case sc.Cls == "queuefull" || m <= 1:
+			case sc.Cls == "hol": // every deadline at least 300 ms (the replies are written at once) and below the read timeout
+				switch m {
+				case 0, 1:
+					sc.Modes[c], sc.Eff[c] = "cfg", sc.CfgTO
+				case 2:
+					sc.Modes[c], sc.Eff[c] = "call", 300+r.Intn(101)
+				default:
+					sc.Modes[c], sc.Eff[c] = "ctx", sc.CfgTO+50
+				}
+			case sc.Cls == "edge-subms" && c <= sc.Sequel: // Eff 0 stands for a context deadline of 300 microseconds
+				switch c % 3 {
+				case 0:
+					sc.Modes[c], sc.Eff[c] = "ctx", 0
+				case 1:
+					sc.Modes[c], sc.Eff[c] = "call", 1
+				default:
+					sc.Modes[c], sc.Eff[c] = "ctx", 1
+				}
+			case sc.Cls == "queuefull" || sc.Cls == "edge-qmax0" || sc.Cls == "edge-qmax1" || m <= 1:
 				sc.Modes[c], sc.Eff[c] = "cfg", sc.CfgTO
 			case m == 2:
 				sc.Modes[c], sc.Eff[c] = "call", 50+r.Intn(251)
@@ -173,6 +234,32 @@ func plan(seed int64, classes []string, per int, maxK int) []*scenario {
 				if c == 1 {
 					rs = append(rs, reply{8 + r.Intn(10), "notify"})
 				}
+			case "hol":
+				sc.Script.Barrier = sc.K
+				if c%2 == 1 {
+					rs = []reply{{0, "own"}, {0, "own"}}
+					if r.Intn(3) == 0 {
+						rs = append(rs, reply{0, "own"})
+					}
+					if c == 1 && r.Intn(2) == 0 {
+						rs = append([]reply{{0, pickStr(r, "foreign", "zero")}}, rs...)
+					}
+				} else {
+					rs = []reply{{r.Intn(3), "own"}}
+				}
+			case "edge-read0", "edge-write0", "edge-dial1", "edge-subms":
+				if c <= sc.Sequel {
+					rs = []reply{{0, "own"}}
+					if r.Intn(3) == 0 {
+						rs = append(rs, reply{0, "own"})
+					}
+				} else {
+					rs = []reply{{r.Intn(10), "own"}}
+				}
+			case "edge-qmax0", "edge-qmax1":
+				if r.Intn(4) > 0 {
+					rs = []reply{{pickInt(r, 0, 30, 60), "own"}}
+				}
 			case "sequel":
 				if c <= sc.Sequel {
 					rs = []reply{{0, "own"}, {0, "own"}}
@@ -230,6 +317,8 @@ func plan(seed int64, classes []string, per int, maxK int) []*scenario {
 	return out
 }
 
+func pickStr(r *rand.Rand, xs ...string) string { return xs[r.Intn(len(xs))] }
+
 func maxi(a, b int) int {
 	if a > b {
 		return a
@@ -237,7 +326,7 @@ func maxi(a, b int) int {
 	return b
 }
 
-func cmdTrace(seed int64, clsList string, per, maxK int, shard, out string, only int, list bool) error {
+func cmdTrace(seed int64, clsList string, per, maxK int, shard, out string, only int, list bool, filter string, stopOnHung bool) error {
 	var si, sn int
 	if _, err := fmt.Sscanf(shard, "%d/%d", &si, &sn); err != nil || sn <= 0 {
 		return fmt.Errorf("bad -shard %q", shard)
@@ -247,6 +336,14 @@ func cmdTrace(seed int64, clsList string, per, maxK int, shard, out string, only
 		cl = strings.Split(clsList, ",")
 	}
 	scs := plan(seed, cl, per, maxK)
+	for _, sc := range scs {
+		sc.Filter = filter
+	}
+	if !list {
+		if err := installFilter(filter); err != nil {
+			return err
+		}
+	}
 	if list {
 		for _, sc := range scs {
 			b, _ := json.Marshal(sc)
@@ -258,7 +355,7 @@ func cmdTrace(seed int64, clsList string, per, maxK int, shard, out string, only
 	if err != nil {
 		return err
 	}
-	nrun := 0
+	nrun, skipped := 0, 0
 	for _, sc := range scs {
 		if only >= 0 && sc.Idx != only {
 			continue
@@ -275,13 +372,20 @@ func cmdTrace(seed int64, clsList string, per, maxK int, shard, out string, only
 		}
 		w.Write(tr.Ev{"e": "End", "sc": sc.Idx})
 		nrun++
+		if stopOnHung && len(evs) > 0 && evs[len(evs)-1]["e"] == "Hung" {
+			// a call that never returns leaves goroutines (and possibly process-wide locks) behind: what this process would show
+			// from here on says nothing about the scenarios that follow
+			skipped = len(scs)
+			break
+		}
 	}
 	if err := w.Close(); err != nil {
 		return err
 	}
 	hits := map[string]int64{}
 	hookHits.Range(func(k, v interface{}) bool { hits[k.(string)] = atomic.LoadInt64(v.(*int64)); return true })
-	b, _ := json.Marshal(map[string]interface{}{"scenarios": nrun, "hits": hits})
+	b, _ := json.Marshal(map[string]interface{}{"scenarios": nrun, "hits": hits, "filter": filter, "filter_calls": atomic.LoadInt64(&filterCalls),
+		"stopped_after_hung": skipped > 0})
 	fmt.Println(string(b))
 	return nil
 }
@@ -361,6 +465,40 @@ func cmdIDSeq(out string) error {
 			}(g)
 		}
 		close(gate)
+		wg.Wait()
+		var all []int
+		for _, r := range res {
+			all = append(all, r...)
+		}
+		sort.Ints(all)
+		ms, _ := mapID(s)
+		w.Write(tr.Ev{"kind": "burst", "start": ms, "ids": all, "mapped": true})
+	}
+	// the same once more with a spinning start line instead of a channel (goroutines woken through a channel start microseconds
+	// apart, which on a busy machine is longer than the whole burst): every goroutine draws the moment the last one has arrived
+	for round := 0; round < 1500; round++ {
+		s := maxInt32 - int32(round%3)
+		tars.VerifSetMsgID(s)
+		const G, N = 3, 2 // few spinners: on a busy machine they must all be on a processor at once
+		res := make([][]int, G)
+		var wg sync.WaitGroup
+		var ready int32
+		for g := 0; g < G; g++ {
+			wg.Add(1)
+			go func(g int) {
+				defer wg.Done()
+				atomic.AddInt32(&ready, 1)
+				for spins := 0; atomic.LoadInt32(&ready) < G; spins++ {
+					if spins > 2000000 { // a start line that does not fill up (starved machine): go ahead
+						break
+					}
+				}
+				for i := 0; i < N; i++ {
+					m, _ := mapID(tars.VerifGenRequestID(sp))
+					res[g] = append(res[g], m)
+				}
+			}(g)
+		}
 		wg.Wait()
 		var all []int
 		for _, r := range res {
@@ -506,3 +644,41 @@ func wireIDs(w *tr.Writer) error {
 var _ = strconv.Itoa
 var _ = strings.TrimSpace
 var _ = os.Exit
+
+// ---- client filters (process-wide registrations: one process per kind).  Every filter is transparent: it returns nil (pre / post)
+// or exactly what the next stage returned (legacy client filter, middleware).
+var filterCalls int64
+
+func installFilter(kind string) error {
+	count := func(ctx context.Context, msg *tars.Message, invoke tars.Invoke, timeout time.Duration) error {
+		atomic.AddInt64(&filterCalls, 1)
+		return nil
+	}
+	switch kind {
+	case "", "none":
+	case "pre":
+		tars.RegisterPreClientFilter(count)
+	case "post":
+		tars.RegisterPostClientFilter(count)
+	case "prepost":
+		tars.RegisterPreClientFilter(count)
+		tars.RegisterPostClientFilter(count)
+		tars.RegisterPostClientFilter(count)
+	case "legacy":
+		tars.RegisterClientFilter(func(ctx context.Context, msg *tars.Message, invoke tars.Invoke, timeout time.Duration) error {
+			atomic.AddInt64(&filterCalls, 1)
+			return invoke(ctx, msg, timeout)
+		})
+	case "mw":
+		mw := func(next tars.ClientFilter) tars.ClientFilter {
+			return func(ctx context.Context, msg *tars.Message, invoke tars.Invoke, timeout time.Duration) error {
+				atomic.AddInt64(&filterCalls, 1)
+				return next(ctx, msg, invoke, timeout)
+			}
+		}
+		tars.UseClientFilterMiddleware(mw, mw)
+	default:
+		return fmt.Errorf("unknown -filter %q", kind)
+	}
+	return nil
+}
